@@ -73,6 +73,15 @@ def generate(repo, ws, write_if_changed):
         dict(kind="fn", name="find_height_after_window_fast"),
         dict(kind="fn", name="find_height_after_window_slow"),
     ]))
+    emit("validator_set_c03.rs",
+         slice_file(repo, "types/src/trust_level.rs", [
+             dict(kind="struct", name="TrustLevelRatio"),
+             dict(kind="impl", impl=r"^impl TrustLevelRatio$"),
+         ]) + slice_file(repo, "types/src/validator_set.rs", [
+             dict(kind="trait", name="ValidatorSetExt"),
+             dict(kind="impl", impl=r"^impl ValidatorSetExt for Set$"),
+             dict(kind="fn", name="find_validator"),
+         ]))
     emit("syncer_c25.rs", slice_file(repo, "node/src/syncer.rs", [
         dict(kind="const", name="SLOW_SYNC_MIN_THRESHOLD"),
         dict(kind="fn", name="fetch_next_batch", impl=r"impl<S> Worker<S>", wrap="impl Worker"),
